@@ -10,6 +10,8 @@
 
 package parser
 
+import "strings"
+
 // specBinaryAllowed: arithmetic on int, concatenation on string, nothing else (Go spec, Arithmetic operators).
 func specBinaryAllowed(t ValueType, op string) bool {
 	if t.IsSlice() {
@@ -95,6 +97,33 @@ func specTyped(e Expression) bool {
 		return true
 	}
 	return false
+}
+
+// specReservedName: identifiers the back ends own (temporaries _h<n>, registers _rv<n> _fa<n>,
+// loop flags _fv<n>, dynamic arrays _dv<n> _dvc, helper routines and their scratch variables).
+func specReservedName(name string) bool {
+	if strings.HasPrefix(name, "_h") || strings.HasPrefix(name, "_rv") || strings.HasPrefix(name, "_fa") || strings.HasPrefix(name, "_fv") || strings.HasPrefix(name, "_dv") {
+		return true
+	}
+	if strings.HasPrefix(name, "_s") || strings.HasPrefix(name, "_ach") || strings.HasPrefix(name, "_fr") || strings.HasPrefix(name, "_fw") || strings.HasPrefix(name, "_ech") || strings.HasPrefix(name, "_eo_") || strings.HasPrefix(name, "_ret") || strings.HasPrefix(name, "_len") {
+		return true
+	}
+	switch name {
+	case "_i", "_l", "_c", "_n", "_v", "_ls", "_ll", "_a", "_e", "_te", "LF":
+		return true
+	}
+	return false
+}
+
+func specVarVisible(c context, name string, prefix string) bool {
+	_, ok := c.findVariable(name, prefix, c.global())
+	return ok
+}
+
+// specVarKey: the key under which a variable of that name is looked up.
+func specVarKey(c context, name string, prefix string) string {
+	key, _ := c.buildPrefixedName(name, prefix, c.global(), true)
+	return key
 }
 
 func specHasFunction(c context, name string, prefix string) bool {
@@ -239,6 +268,20 @@ func specInScope(stack []scope, n int, s scope) bool {
 //
 //@ func (*Parser).evaluateImports
 //@   loop 5 invariant[C09] imported-top-level-code-kept: len(statements) >= specCountOther(statementsTemp, rangeindex + 1)
+//
+//@ func (*Parser).checkNewVariableNameToken
+//@   ensures[C10,FINDING] compiler-owned-names-rejected: result == nil ==> !specReservedName(token.value)
+//@   ensures[C07] visible-name-rejected: (result != nil) == specVarVisible(ctx, token.value, p.prefix)
+//
+//@ func (*Parser).evaluateVarAssignment
+//@   loop 2 invariant[C02] targets-are-the-defined-variables: len(variables) == rangeindex + 1 && forall(k, 0, rangeindex + 1, has(ctx.variables, specVarKey(ctx, res(evaluateVarNames, 0, 0)[k].value, p.prefix)) && variables[k] == get(ctx.variables, specVarKey(ctx, res(evaluateVarNames, 0, 0)[k].value, p.prefix)))
+//
+//@ func (*Parser).evaluateIncrementDecrement
+//@   ensures[C01,C02] plus-or-minus-one-on-the-defined-variable: err == nil ==> isType(result0, "parser.VariableAssignment") && len(asType(result0, "parser.VariableAssignment").variables) == 1 && len(asType(result0, "parser.VariableAssignment").values) == 1 && isType(asType(result0, "parser.VariableAssignment").values[0], "parser.BinaryOperation") && asType(asType(result0, "parser.VariableAssignment").values[0], "parser.BinaryOperation").right == specIntLit(1)
+//@   ensures[C01] increment-adds-decrement-subtracts: err == nil ==> (old(p.peekAt(1)).tokenType == lexer.INCREMENT_OPERATOR ==> asType(asType(result0, "parser.VariableAssignment").values[0], "parser.BinaryOperation").operator == "+") && (old(p.peekAt(1)).tokenType == lexer.DECREMENT_OPERATOR ==> asType(asType(result0, "parser.VariableAssignment").values[0], "parser.BinaryOperation").operator == "-")
+//
+//@ func incrementDecrementStatement
+//@   ensures[C01] same-variable-both-sides: isType(result, "parser.VariableAssignment") && asType(result, "parser.VariableAssignment").variables[0] == variable && asType(asType(asType(result, "parser.VariableAssignment").values[0], "parser.BinaryOperation").left, "parser.VariableEvaluation").Variable == variable && (increment ==> asType(asType(result, "parser.VariableAssignment").values[0], "parser.BinaryOperation").operator == "+") && (!increment ==> asType(asType(result, "parser.VariableAssignment").values[0], "parser.BinaryOperation").operator == "-")
 //
 //@ func (*Parser).evaluateBreak
 //@   ensures[C07] only-in-loop-or-switch: (err == nil) == (specInScope(ctx.scopeStack, len(ctx.scopeStack), "for") || specInScope(ctx.scopeStack, len(ctx.scopeStack), "switch"))
